@@ -200,7 +200,8 @@ MANIFEST = dict(
           'with allowed locks) discharged at every acquisition / callback / blocking site of the real code; exactly one '
           'announcer per path of Task.__call__, SubmissionTask._main and cancel; CountCallbackInvoker fires exactly '
           'when the finalized count reaches zero (monitor). Liveness over schedules (termination of waits, lost '
-          'wake-ups, fairness) is NOT decided by this technique and is not claimed.'),
+          'wake-ups, fairness) is NOT decided by this technique and is not claimed.'
+          ' Also: SubmissionTask._wait_for_all_submitted_futures_to_complete returns only when the set it waited for was still the whole associated set (or none is associated).'),
     note=('Absence of lock-induced deadlock and of double/missing announce per path; no schedule is enumerated; '
           'threading primitives and ThreadPoolExecutor FIFO behaviour are assumed (A-LOCK, A-EXECUTOR).'),
     technique='contract-based deductive verification: lock-level / requires-unheld contracts + trace and monitor contracts',
